@@ -498,9 +498,9 @@ package datalog
 //@ serves C10 C11 C13
 //@ requires forall j int :: { opts[j] } 0 <= j && j < len(opts) ==> opts[j] != nil
 //@ modifies nothing
-//@ loop 0 invariant w != nil && fresh(w) && w.facts != nil && fresh(w.facts) && len(*w.facts) == 0 && len(w.rules) == 0
+//@ loop 0 invariant w != nil && fresh(w) && w.facts != nil && fresh(w.facts) && len(*w.facts) == 0 && cap(*w.facts) == 0 && len(w.rules) == 0
 //@ loop 0 invariant w.runLimits == woFold(inner(opts), off(opts), #i, defaultRunLimits)
-//@ ensures res != nil && fresh(res) && res.facts != nil && len(*res.facts) == 0 && len(res.rules) == 0
+//@ ensures res != nil && fresh(res) && res.facts != nil && len(*res.facts) == 0 && cap(*res.facts) == 0 && len(res.rules) == 0
 //@ ensures applies_all_options[C11]: res.runLimits == woFold(inner(opts), off(opts), len(opts), defaultRunLimits)
 
 // Assumed for every WorldOption value (the type is exported, so callers may
